@@ -8,7 +8,6 @@ DEL, NBSP and the Unicode line/paragraph separators are non-printable (and there
 that on ASCII it is exactly 0x20..0x7E.
 """
 
-import inspect
 
 
 def ranges() -> list[tuple[int, int]]:
@@ -29,12 +28,8 @@ def ranges() -> list[tuple[int, int]]:
 def generate() -> dict[str, str]:
     import unicodedata
 
-    from exabgp.reactor.api.response import text
-
-    # the model is only right while `oneline` still decides with str.isprintable(): read the source
-    src = inspect.getsource(text.oneline)
-    if 'isprintable()' not in src:
-        raise RuntimeError('text.oneline no longer decides with str.isprintable(): the M-Json model of oneline must be re-read')
+    # the table is the interpreter's Unicode database only; whether `oneline` still decides with it is what the
+    # function correspondence of harness/props/C13.py (text.oneline against the model on every code point class) checks
     rs = ranges()
     rows = ',\n   '.join(', '.join(f'({lo}, {hi})' for lo, hi in rs[i : i + 8]) for i in range(0, len(rs), 8))
     lean = f'''namespace Exa.Generated.Printable
